@@ -125,7 +125,9 @@ func a7Family(floor int, fam string) func(*Ctx) {
 		}
 		names := map[string]bool{}
 		for h := range hs {
-			names[fnName(h)] = true
+			for f := range c.M.Reach(h) {
+				names[fnName(f)] = true
+			}
 		}
 		scope := func(fn string) bool {
 			if i := strings.Index(fn, "$"); i > 0 {
